@@ -58,6 +58,8 @@ func measureGen(r *rand.Rand, n int, tier string, emit func(Case)) {
 			mk = 1
 		case 2:
 			mk = 2 // general-position float image: rotation by an arbitrary angle, non-dyadic scale
+		case 3:
+			mk = 3 + r.Intn(2) // power-of-two scale far from 1, with or without a large offset
 		}
 		c := pairCase(l, g, geom.Geometry{}, mk)
 		delete(c, "wb")
@@ -70,7 +72,7 @@ func measureOnPanic(c Case) Event {
 	if _, ok := c["kind"]; ok {
 		return Event{"kind": "sliver", "k": 1, "hu": 1, "wkt": "", "fin": false, "cempty": false, "dxu": 0, "dyu": 0, "areafin": false}
 	}
-	return Event{"g": []*flat{}, "area2": 0, "sarea2": 0, "area2t": 0, "ts": 1, "lenn": 0, "cx": 0, "cy": 0, "cempty": false, "gp": false}
+	return Event{"g": []*flat{}, "area2": 0, "sarea2": 0, "area2t": 0, "ts": 1, "lenn": 0, "cx": 0, "cy": 0, "cempty": false, "gp": false, "slen": 0, "scen": 0, "noarea": false}
 }
 
 func roundInt(v float64) int {
@@ -116,6 +118,20 @@ func measureExec(c Case) Event {
 	f, gp := mapOf(c)
 	inv := invOf(c)
 	ev["gp"] = gp
+	// the error the property grants (1e-9 of the coordinate magnitude), expressed in the units of the recorded values:
+	// 1/256 lattice unit for the length, 1/1024 for the centroid; with an offset the area tolerance (1e-9 magnitude^2)
+	// exceeds every area of the image, so the area clauses are not judged there
+	mag := 0.0
+	if seq := imageOf(g0, f).DumpCoordinates(); true {
+		for i := 0; i < seq.Length(); i++ {
+			p := seq.GetXY(i)
+			mag = math.Max(mag, math.Max(math.Abs(p.X), math.Abs(p.Y)))
+		}
+	}
+	ev["slen"], ev["scen"] = int(math.Ceil(256e-9*mag/scaleOf(c))), int(math.Ceil(1024e-9*mag/scaleOf(c)))
+	if t := c.list("t"); t != nil && (hexFloat(t[1]) != 0 || hexFloat(t[2]) != 0) && hexFloat(t[0]) < 1 {
+		ev["noarea"] = true
+	}
 	s := scaleOf(c)
 	g := imageOf(g0, f)
 	ev["g"] = parts(g0)
